@@ -41,6 +41,7 @@ type memConn struct {
 	lastDown    time.Duration
 	heldUp      [][]byte
 	heldDown    [][]byte
+	heldDownCb  []func() // delivery callbacks of heldDown (same index; nil = none)
 	upCount     int
 	curReq      []byte // request being handled (latency key of its reply)
 	pend        [][]byte
@@ -292,8 +293,13 @@ func (n *Net) sendUp(c *memConn, frame []byte) {
 // sendDown: the reply's latency is keyed by the *request* it answers (c.curReq), not by the
 // reply bytes (which contain e.g. the data length of the lock node and with it the digit count
 // of this run process' OS pid).
-func (n *Net) sendDown(c *memConn, frame []byte) {
+// sendDown: cb (optional) runs at the instant the frame is handed to the client.
+func (n *Net) sendDown(c *memConn, frame []byte, cb ...func()) {
 	s := n.s
+	var onDeliver func()
+	if len(cb) > 0 {
+		onDeliver = cb[0]
+	}
 	c.downCount++
 	lat := s.zkLatency(c, c.curReq, false)
 	at := s.now() + lat
@@ -307,9 +313,13 @@ func (n *Net) sendDown(c *memConn, frame []byte) {
 		}
 		if n.blocked(c.host, "zk") {
 			c.heldDown = append(c.heldDown, frame)
+			c.heldDownCb = append(c.heldDownCb, onDeliver)
 			return
 		}
 		c.deliver(frame)
+		if onDeliver != nil {
+			onDeliver()
+		}
 	})
 }
 
@@ -319,8 +329,8 @@ func (n *Net) flushHeld() {
 		if c.dead.Load() || n.blocked(c.host, "zk") {
 			continue
 		}
-		up, down := c.heldUp, c.heldDown
-		c.heldUp, c.heldDown = nil, nil
+		up, down, downCb := c.heldUp, c.heldDown, c.heldDownCb
+		c.heldUp, c.heldDown, c.heldDownCb = nil, nil, nil
 		c.mu.Lock()
 		closed := c.cliClose || c.srvClose
 		c.mu.Unlock()
@@ -330,8 +340,12 @@ func (n *Net) flushHeld() {
 		for _, f := range up {
 			n.sendUp(c, f)
 		}
-		for _, f := range down {
-			n.sendDown(c, f)
+		for i, f := range down {
+			if i < len(downCb) && downCb[i] != nil {
+				n.sendDown(c, f, downCb[i])
+			} else {
+				n.sendDown(c, f)
+			}
 		}
 	}
 }
@@ -381,6 +395,7 @@ type ZKEvent struct {
 }
 
 type ZKServer struct {
+	onReply  func(e *ZKEvent) // a successful read's reply reached the client
 	s        *Sim
 	tree     map[string]*znode
 	sessions map[int64]*zkSession
@@ -884,6 +899,12 @@ func (z *ZKServer) handle(c *memConn, req []byte) {
 	w.i32(errc)
 	if errc == 0 {
 		w.b = append(w.b, body.b...)
+	}
+	if ev.Op == "get" && errc == 0 && z.onReply != nil {
+		e2 := ev
+		e2.Seq, e2.T = s.evSeq, s.now()
+		s.net.sendDown(c, zframe(w.b), func() { z.onReply(&e2) })
+		return
 	}
 	s.net.sendDown(c, zframe(w.b))
 }
